@@ -206,22 +206,14 @@ type seed struct {
 // folders registered for a named primitive type and for built-in unnamed types
 type seedLevel uint8
 
+// (written like the README's foldDuration: they do not expect nil - a nil pointer is null, it is not handed to the folder)
 func foldSeedLevel(l *seedLevel, v structform.ExtVisitor) error {
-	if l == nil {
-		return v.OnNil() // a nil pointer is handed to the registered folder as it is
-	}
 	return v.OnString(fmt.Sprintf("L%d", *l))
 }
 func foldSeedFloat(f *float64, v structform.ExtVisitor) error {
-	if f == nil {
-		return v.OnNil()
-	}
 	return v.OnString(fmt.Sprintf("F%v", *f))
 }
 func foldSeedBytes(b *[]byte, v structform.ExtVisitor) error {
-	if b == nil {
-		return v.OnNil()
-	}
 	return v.OnString(fmt.Sprintf("B%x", *b))
 }
 
